@@ -196,12 +196,22 @@ class Ctx:
                 nb5 = expand_lazy_iterators(nb, crate)
                 if nb5 is not nb:
                     nb = nb5
+                    # closure bodies brought in by the expansion may use adaptors themselves (`cond.then_some(i)`)
+                    nb9 = desugar_adaptors(nb, crate)
+                    if nb9 is not nb:
+                        nb9.inlined_from = set(getattr(nb, 'inlined_from', set())) | set(getattr(nb9, 'inlined_from', set()))
+                        nb = nb9
                 from .inline import thread_jumps
                 nb4 = thread_jumps(nb)
                 if nb4 is not nb:
                     nb = nb4
             if b.path in split_targets:
-                from .inline import split_decisions
+                from .inline import split_decisions, split_literal_results
+                # gates written as helpers returning Ok(()) / Err(X) and used with `?` (require_valid(..)?): each literal takes its arm
+                nb8 = split_literal_results(nb, max_splits=6)
+                if nb8 is not None:
+                    nb8.inlined_from = set(getattr(nb, 'inlined_from', set())) | set(getattr(nb8, 'inlined_from', set()))
+                    nb = nb8
                 nb3 = split_decisions(nb)
                 if nb3 is not nb:
                     nb = nb3
@@ -229,7 +239,7 @@ class Ctx:
             return None
         used |= mine
         # closures consumed by a desugared adaptor are analysed in place only
-        gone = {u for u in mine if not u.startswith(('decision-split:', 'jump-threading:', 'collect@', 'unroll@')) and crate.body(u) is not None and crate.body(u).kind == 'Closure'}
+        gone = {u for u in mine if not u.startswith(('decision-split:', 'jump-threading:', 'collect@', 'unroll@', 'then_some@')) and crate.body(u) is not None and crate.body(u).kind == 'Closure'}
         bodies = [bj for bj in bodies if bj['path'] not in gone]
         for bj in bodies:
             for blk in bj['blocks']:
